@@ -355,18 +355,21 @@ StartW(w) ==
                 !.phase = "up", !.sess = @ + 1,
                 !.M = MonStep(w.M, [a |-> "started"], [ok |-> TRUE, st |-> StOf(s1.mem)])]
 
+\* the world after an input was handled completely / panicked / was cut short by a crash after k boundaries
+Charge(w, act) == [w EXCEPT !.faults = @ + (IF act.fail > 0 THEN 1 ELSE 0)]
+DoneW(w, act, c)  == [Charge(w, act) EXCEPT !.S = FinState(c), !.phase = IF act.a = "shutdown" THEN "down" ELSE "up"]
+CutW(w, c, k)     == [w EXCEPT !.S = [w.S EXCEPT !.fs = IF k = 0 THEN w.S.fs ELSE c.out[k].fs,
+                                                 !.n  = IF k = 0 THEN w.S.n ELSE c.out[k].n],
+                               !.phase = "down"]
+PanicW(w, act, c) == CutW(Charge(w, act), c, Len(c.out))
+
 \* an input handled by the stream loop, to completion (or to the panic)
 InputW(w, act) ==
   LET c  == ProcOf(w, act)
       m1 == MonOps(MonStep(w.M, act, 0), c.out, 1, Len(c.out))
-      w1 == [w EXCEPT !.faults = @ + (IF act.fail > 0 THEN 1 ELSE 0)]
   IN  IF c.panic
-      THEN [w1 EXCEPT !.M = MonStep(m1, [a |-> "panic"], 0),
-                      !.S = [w.S EXCEPT !.fs = IF c.out = <<>> THEN w.S.fs ELSE c.out[Len(c.out)].fs, !.n = c.n],
-                      !.phase = "down"]
-      ELSE [w1 EXCEPT !.M = MonStep(m1, DoneAct(act), [fwd |-> TRUE, mem |-> MemObs(c.mem)]),
-                      !.S = FinState(c),
-                      !.phase = IF act.a = "shutdown" THEN "down" ELSE "up"]
+      THEN [PanicW(w, act, c) EXCEPT !.M = MonStep(m1, [a |-> "panic"], 0)]
+      ELSE [DoneW(w, act, c) EXCEPT !.M = MonStep(m1, DoneAct(act), [fwd |-> TRUE, mem |-> MemObs(c.mem)])]
 
 \* the process dies after k boundaries of the input: memory (mem, the bufio buffer, the rest of the input)
 \* is lost, the files stay as they are
@@ -374,9 +377,7 @@ CrashPoints(c) == { k \in 1..Len(c.out) : c.out[k].op # "bufw" }
 CrashRec(n) == [a |-> "crash", k |-> n]
 InputCrashW(w, act, k) ==
   LET c == ProcOf(w, act)
-  IN  [w EXCEPT !.M = MonStep(MonOps(MonStep(w.M, act, 0), c.out, 1, k), CrashRec(c.out[k].n), 0),
-                !.S = [w.S EXCEPT !.fs = c.out[k].fs, !.n = c.out[k].n],
-                !.phase = "down"]
+  IN  [CutW(w, c, k) EXCEPT !.M = MonStep(MonOps(MonStep(w.M, act, 0), c.out, 1, k), CrashRec(c.out[k].n), 0)]
 
 IdleCrashW(w) == [w EXCEPT !.M = MonStep(w.M, CrashRec(w.S.n), 0), !.phase = "down"]
 
